@@ -163,6 +163,11 @@ fn filter_args(filter: &Filter) -> Vec<(&'static str, Result<Vec<u8>, String>)> 
         ("count", Count::new(filter.clone()).command(), 0, 1),
         ("list", List::new(Tag::Album).filter(filter.clone()).command(), 1, 2),
         ("count-group", CountGrouped::new(Tag::Album).filter(filter.clone()).command(), 0, 3),
+        // (round 7) the other builder paths that carry a filter: every one must carry the same filter
+        ("count.group_by", Count::new(filter.clone()).group_by(Tag::Album).command(), 0, 3),
+        ("list.filter.group_by", List::new(Tag::Album).filter(filter.clone()).group_by([Tag::Artist]).command(), 1, 4),
+        ("list.group_by.filter", List::new(Tag::Album).group_by([Tag::Artist, Tag::Date]).filter(filter.clone()).command(), 1, 6),
+        ("find.sort.window", Find::new(filter.clone()).sort(Tag::Title).window(1..3).command(), 0, 5),
     ];
     forms
         .into_iter()
@@ -207,6 +212,8 @@ fn check_unencodable(value: &str, acc: &mut Acc, verbose: bool) {
         ("count", Box::new(|f| Count::new(f).command()), 0, 1),
         ("list", Box::new(|f| List::new(Tag::Album).filter(f).command()), 1, 2),
         ("count-group", Box::new(|f| CountGrouped::new(Tag::Album).filter(f).command()), 0, 3),
+        ("count.group_by", Box::new(|f| Count::new(f).group_by(Tag::Album).command()), 0, 3),
+        ("list.group_by.filter", Box::new(|f| List::new(Tag::Album).group_by([Tag::Artist]).filter(f).command()), 1, 4),
     ];
     for (leafname, filter, mirror) in [
         ("Filter::tag", Filter::tag(Tag::Artist, value), Expr::Tag { tag: b"Artist".to_vec(), op: "==".into(), value: value.as_bytes().to_vec() }),
@@ -548,7 +555,7 @@ pub fn run(tier: Tier) -> i32 {
     cov.evaluations = acc.evaluations;
     cov.distinct_nontrivial = acc.nontrivial;
     cov.rule = format!(
-        "{} tree shapes (<=3 leaves, nesting <=3, NOT via negate() and via `!`, AND in both association orders) x every assignment of the 8 leaf kinds (5 operators, Filter::tag, tag_exists, tag_absent) with rotating tags; every tag x kind on a single leaf; at one leaf at a time every value of length <= {} over {:?} ({} values), on a single leaf under every operator and through Filter::tag; values of every length 40..=70, 120..=136, 250..=260 and around 512 / 1024 / 2000 with 0..=3 backslashes / quotes / blanks / non-ASCII characters; values with LF / NUL (refused, or sent unaltered); all pairs of single-symbol values on a two-leaf AND; every tag name of the protocol x every operator; 48 control / combining / format / separator / private-use characters at the start, inside and at the end of a value x every operator; every sequence of <= 3 negate / ! / and / clone steps applied to a filter that has already been rendered, rendering after each step; each rendered through find, count, list…filter and count…group; non-trivial = trees with several leaves or a value containing a non-alphanumeric byte",
+        "{} tree shapes (<=3 leaves, nesting <=3, NOT via negate() and via `!`, AND in both association orders) x every assignment of the 8 leaf kinds (5 operators, Filter::tag, tag_exists, tag_absent) with rotating tags; every tag x kind on a single leaf; at one leaf at a time every value of length <= {} over {:?} ({} values), on a single leaf under every operator and through Filter::tag; values of every length 40..=70, 120..=136, 250..=260 and around 512 / 1024 / 2000 with 0..=3 backslashes / quotes / blanks / non-ASCII characters; values with LF / NUL (refused, or sent unaltered); all pairs of single-symbol values on a two-leaf AND; every tag name of the protocol x every operator; 48 control / combining / format / separator / private-use characters at the start, inside and at the end of a value x every operator; every sequence of <= 3 negate / ! / and / clone steps applied to a filter that has already been rendered, rendering after each step; each rendered through find (plain and with sort / window), count, count…group_by, list…filter (with group_by before and after) and count…group; non-trivial = trees with several leaves or a value containing a non-alphanumeric byte",
         all_shapes.len(),
         tier.pick(4, 5),
         VALUE_SIGMA,
